@@ -56,6 +56,12 @@ def strategy(draw, tier="quick"):
         o = dict(o)
         o["adv"] = adv
         ops.append(o)
+    if draw(st.integers(0, 3)) == 0:
+        # a burst just slow enough to age past ten seconds well before fifty writes have accumulated
+        gap = draw(st.sampled_from([0.25, 0.3, 0.4, 0.45]))
+        n = draw(st.integers(int(11 / gap) + 1, min(49, int(11 / gap) + 12)))
+        at = draw(st.integers(0, len(ops)))
+        ops[at:at] = [{"op": "read", "b": 0, "kind": "count", "adv": 0}] + [{"op": "insert", "b": 0, "e": [i % 50, 1, "b"], "adv": gap} for i in range(n)]
     return {"ops": ops}
 
 
